@@ -56,7 +56,7 @@ def main_sizes_double(n, nbuckets, sps, padding, roundp, pinned=False):
     sp = py_round(n * sps)
     padded = math.ceil(n * max(padding, 1.0))
     spaced = math.ceil(((n * nbuckets) & 0xffffffff) * sps)
-    if not pinned:      # fix d13e4f1: room for the last bucket's block
+    if not pinned:      # fix 899923d: room for the last bucket's block
         spaced = max(spaced, ((((nbuckets - 1) & 0xffffffff) * sp + n) & (2 ** 64 - 1)))
     if roundp:
         padded, spaced = upt(padded), upt(spaced)
